@@ -112,6 +112,11 @@ pub fn rand_layers_cfg(rng: &mut Rng, hostile: bool, shared_only: bool) -> Layer
                 let p = rng.pick(&[LayerPurpose::Drawing, LayerPurpose::Pin, LayerPurpose::Obstruction]).clone();
                 pairs.push((free[k], p));
             }
+            // the same purpose NAME registered under two more numbers (a PDK's "pin" 16 and 116)
+            if rng.chance(1, 2) {
+                pairs.push((free[3], LayerPurpose::Named(format!("alias{}", i), free[3])));
+                pairs.push((free[4], LayerPurpose::Named(format!("alias{}", i), free[4])));
+            }
             for _ in 0..rng.usize(3) {
                 let from = rng.pick(&pairs).0;
                 let to = rng.pick(&[LayerPurpose::Drawing, LayerPurpose::Pin, LayerPurpose::Label, LayerPurpose::Obstruction]).clone();
@@ -323,7 +328,13 @@ pub fn rand_raw_lib(rng: &mut Rng, cfg: &RawCfg) -> GenRaw {
             let ne = rng.usize(cfg.max_elems + 1);
             for k in 0..ne {
                 let (key, _num, purps) = rng.pick(&defs.table).clone();
-                let (purpose, _) = rng.pick(&purps).clone();
+                let (mut purpose, _) = rng.pick(&purps).clone();
+                // hostile sets: now and then a shape names its purpose without knowing the layer's number for it (Named(name, 0)): that
+                // purpose is not registered, and an exporter can only refuse - the same way every time
+                if cfg.hostile_layers && rng.chance(1, 40) {
+                    let li = defs.table.iter().position(|t| t.0 == key).unwrap_or(0);
+                    purpose = LayerPurpose::Named(format!("alias{}", li), 0);
+                }
                 let (mut inner, _) = rand_shape(rng, cfg, (k as i64 * 1000, (i as i64 % 3) * 1000));
                 if cfg.odd_views && rng.chance(1, 12) {
                     // an exact axis-aligned rectangle given as a four-point polygon in the order (x0,y0) (x1,y0) (x1,y1) (x0,y1)
